@@ -57,6 +57,16 @@ def endless_tables(pl, r_finite, blocking):
     return t
 
 
+def finding_key(r):
+    """Narrow key of the genuine defect listed in known_findings.json (anything else raises)."""
+    ops = r.get("plan_ops") or []
+    unwrapped = any(o == "FaultySource" and (i == 0 or ops[i - 1] != "CooperativeExec") for i, o in enumerate(ops))
+    coop_anc = any(o in ("SortPreservingMergeExec", "CoalescePartitionsExec") or o.startswith("RepartitionExec") for o in ops)
+    if r.get("outcome") == "no_yield" and unwrapped and coop_anc:
+        return "ensure-cooperative-skips-leaf-under-eager-cooperative-ancestor"
+    return None
+
+
 def run(ctx):
     build("vlife")
     if ctx.replay:
@@ -156,8 +166,11 @@ def run(ctx):
     for name, e in ENDLESS.items():
         dsn = f"endless-{name}"
         datasets[dsn] = endless_tables(e.get("pl", 1), e.get("r_finite", False), e.get("blocking", False))
-        for mode in ("yield", "timeout"):
-            ex = {"target_partitions": e["tp"], "rt": "current", "settings": list(e.get("settings", [])), "batch_size": 8, "endless_cap": 300_000}
+        # tokio::time::timeout variant only on streaming shapes (what a blocking shape buffered until the source is
+        # stopped would have to be sorted/merged afterwards); there the source is stopped by the watcher, not by the cap
+        for mode in (("yield",) if e.get("blocking") else ("yield", "timeout")):
+            ex = {"target_partitions": e["tp"], "rt": "current", "settings": list(e.get("settings", [])), "batch_size": 8,
+                  "endless_cap": 20_000 if mode == "yield" else 2_000_000_000}
             it = {"id": f"endless:{name}:{mode}", "sql": e["sql"], "dataset": dsn, "exec": ex,
                   "endless": {"mode": mode, "regains": 3 + ctx.seed % 3, "timeout_ms": 150}}
             items.append(it)
@@ -212,7 +225,7 @@ def run(ctx):
                                 "outcome": oc, "after": r.get("after"), "counters": r.get("counters")})
         if msg:
             report_violation(ctx, {"item": it, "datasets": {it["dataset"]: datasets[it["dataset"]]}, "meta": meta,
-                                   "observed": {k: v for k, v in r.items() if k != "rows"}, "oracle": msg, "class": meta["kind"]})
+                                   "observed": {k: v for k, v in r.items() if k != "rows"}, "oracle": msg, "class": meta["kind"]}, key=finding_key(r))
     if sum(v for k, v in classes.items() if k.startswith("endless") and (k.endswith("cancelled") or k.endswith("elapsed"))) < 10:
         raise ToolError("vacuity: endless-source cases did not run")
     write_evidence(ctx, "fault_enumeration", {
@@ -227,7 +240,7 @@ def run(ctx):
     }, assumptions=[
         "live spawned tasks are read from tokio's runtime metrics (num_alive_tasks) of the per-case runtime; spawn_blocking jobs are not counted there, their effect is covered by the disk/temp-file conditions",
         "release is awaited with a progress-based bound: the wait ends when nothing (tasks, open source streams, source polls) changed for 5 s",
-        "the cooperative-yield verdict is deterministic: on a current-thread runtime the driver task is re-scheduled only if the query task yields; an endless source that is capped at 300k batches per stream turns 'never yields' into a terminating run",
+        "the cooperative-yield verdict is deterministic: on a current-thread runtime the driver task is re-scheduled only if the query task yields; an endless source that is capped at 20k batches per stream turns 'never yields' into a terminating run",
         "tokio::time::timeout variant: the source turns finite only 15x after the deadline and after 50k further polls, so 'completed instead of Elapsed' is not a timing accident",
     ])
 
@@ -242,5 +255,5 @@ def replay(ctx):
     else:
         msg = vlife.released(r)
     if msg:
-        report_violation(ctx, dict(rp, observed={k: v for k, v in r.items() if k != "rows"}, oracle=msg))
+        report_violation(ctx, dict(rp, observed={k: v for k, v in r.items() if k != "rows"}, oracle=msg), key=finding_key(r))
     write_evidence(ctx, "fault_enumeration", {"evaluations": 1, "distinct_nontrivial": 2, "rule": "replay of one recorded case", "samples": [{"item": it["id"], "outcome": r["outcome"]}]})
